@@ -428,6 +428,13 @@ impl<RW: QueueRW<T>, T> MultiQueue<RW, T> {
         }
     }
 
+    /// The publication tag of the slot that will hold the value numbered count
+    #[inline(always)]
+    fn wraps_at(&self, count: usize) -> &AtomicUsize {
+        let ind = (count & (self.capacity as usize - 1)) as isize;
+        unsafe { &(*self.data.offset(ind)).wraps }
+    }
+
     fn reload_tail_multi(&self, tail_cache: usize, count: usize) -> usize {
         if let Some(max_diff_from_head) = self.tail.get_max_diff(count) {
             let current_tail = CountedIndex::get_previous(count, max_diff_from_head);
@@ -518,11 +525,13 @@ impl<RW: QueueRW<T>, T> InnerRecv<RW, T> {
             match self.queue.try_recv(&self.reader) {
                 Ok(v) => return Ok(v),
                 Err((_, TryRecvError::Disconnected)) => return Err(RecvError),
-                Err((pt, TryRecvError::Empty)) => {
+                Err((_, TryRecvError::Empty)) => {
+                    // Another consumer of this stream may have moved the cursor since the
+                    // failed attempt, so wait on the slot of the count that is loaded here
                     let count = self.reader.load_count(Relaxed);
-                    unsafe {
-                        self.queue.waiter.wait(count, &*pt, &self.queue.writers);
-                    }
+                    self.queue
+                        .waiter
+                        .wait(count, self.queue.wraps_at(count), &self.queue.writers);
                 }
             }
         }
@@ -547,12 +556,12 @@ impl<RW: QueueRW<T>, T> InnerRecv<RW, T> {
             match self.queue.try_recv_view(op, &self.reader) {
                 Ok(v) => return Ok(v),
                 Err((o, _, TryRecvError::Disconnected)) => return Err((o, RecvError)),
-                Err((o, pt, TryRecvError::Empty)) => {
+                Err((o, _, TryRecvError::Empty)) => {
                     op = o;
                     let count = self.reader.load_count(Relaxed);
-                    unsafe {
-                        self.queue.waiter.wait(count, &*pt, &self.queue.writers);
-                    }
+                    self.queue
+                        .waiter
+                        .wait(count, self.queue.wraps_at(count), &self.queue.writers);
                 }
             }
         }
@@ -790,9 +799,10 @@ impl<RW: QueueRW<T>, T> Stream for &FutInnerRecv<RW, T> {
                     return Ok(Async::Ready(Some(msg)));
                 }
                 Err((_, TryRecvError::Disconnected)) => return Ok(Async::Ready(None)),
-                Err((pt, _)) => {
+                Err((_, _)) => {
                     let count = self.reader.reader.load_count(Relaxed);
-                    if unsafe { self.wait.fut_wait(count, &*pt, &self.reader.queue.writers) } {
+                    let queue = &self.reader.queue;
+                    if self.wait.fut_wait(count, queue.wraps_at(count), &queue.writers) {
                         return Ok(Async::NotReady);
                     }
                 }
@@ -826,9 +836,10 @@ impl<RW: QueueRW<T>, R, F: for<'r> FnMut(&T) -> R, T> Stream for FutInnerUniRecv
                     return Ok(Async::Ready(Some(msg)));
                 }
                 Err((_, _, TryRecvError::Disconnected)) => return Ok(Async::Ready(None)),
-                Err((_, pt, _)) => {
+                Err((_, _, _)) => {
                     let count = self.reader.reader.load_count(Relaxed);
-                    if unsafe { self.wait.fut_wait(count, &*pt, &self.reader.queue.writers) } {
+                    let queue = &self.reader.queue;
+                    if self.wait.fut_wait(count, queue.wraps_at(count), &queue.writers) {
                         return Ok(Async::NotReady);
                     }
                 }
